@@ -294,9 +294,56 @@ func (w *svWorld) arith() {
 	t, c, n := w.c.Tape, w.c, len(w.m)
 	a, am, sa := w.operand(n)
 	b, bm, sb := w.operand(n)
-	kind := t.Choose(6)
+	kind := t.Choose(8)
 	res := make([]float64, n)
 	var name string
+	if kind >= 6 && n == 0 {
+		kind = 0
+	}
+	switch kind {
+	case 6, 7: // matrix-vector products into the sparse receiver
+		k := t.Range(1, 4)
+		xm := randVals(t, w.e, k)
+		sx := t.Bool(1, 2)
+		x := mkVector(w.e, sx, xm)
+		sm := t.Bool(1, 2)
+		if kind == 6 {
+			name = "MdotV"
+			mm := randVals(t, w.e, n*k)
+			for i := 0; i < n; i++ {
+				s := 0.0
+				for q := 0; q < k; q++ {
+					s = w.e.norm(s + w.e.norm(mm[i*k+q]*xm[q]))
+				}
+				res[i] = s
+			}
+			c.Logf("v.MdotV(%s %dx%d %s, %s %s)", storageName(sm), n, k, fmtVals(mm), storageName(sx), fmtVals(xm))
+			M := mkMatrix(w.e, sm, n, k, mm)
+			w.guard(name, func() { w.v.MdotV(M, x) })
+		} else {
+			name = "VdotM"
+			mm := randVals(t, w.e, k*n)
+			for j := 0; j < n; j++ {
+				s := 0.0
+				for q := 0; q < k; q++ {
+					s = w.e.norm(s + w.e.norm(xm[q]*mm[q*n+j]))
+				}
+				res[j] = s
+			}
+			c.Logf("v.VdotM(%s %s, %s %dx%d %s)", storageName(sx), fmtVals(xm), storageName(sm), k, n, fmtVals(mm))
+			M := mkMatrix(w.e, sm, k, n, mm)
+			w.guard(name, func() { w.v.VdotM(x, M) })
+		}
+		for i := range res {
+			if res[i] == 0 {
+				res[i] = 0
+			}
+		}
+		copy(w.m, res)
+		w.mutated(name)
+		w.renorm()
+		return
+	}
 	switch kind {
 	case 0:
 		name = "VaddV"
